@@ -64,7 +64,14 @@ fn l_case(i: u64) -> (wire::Rec, wire::Rec, u64, bool) {
 fn run_l(i: u64) -> CaseResult {
     let mut res = CaseResult { nontrivial: true, transitions: 1, ..Default::default() };
     let (mine, known, variant, rfc_flush) = l_case(i);
-    let got = wire::suppressed_by_answer(&mine, &known);
+    let got = match std::panic::catch_unwind(std::panic::AssertUnwindSafe(|| wire::suppressed_by_answer(&mine, &known))) {
+        Ok(g) => g,
+        Err(_) => {
+            let p = take_panic().unwrap_or_default();
+            res.viols.push(viol(format!("C10|L|panic|{}", panic_sig(&p)), format!("mine {mine:?} known {known:?}: {p}")));
+            return res;
+        }
+    };
     res.outcome = got as u128 + 2 * variant as u128;
     let same = variant == 0;
     // compare 2*known with mine to avoid rounding: above half / below half / exactly half
